@@ -28,6 +28,24 @@ CHECKS: dict[str, tuple[str, str, str, str, str]] = {
         "TLA+ denotational spec (PtSem) evaluated by TLC on index lambdas exported from the "
         "real lowering (artefact validation), exhaustive bounded enumeration",
         "DESIGN.md section 4 C02"),
+    "C19": (
+        "model_checking",
+        "Every index lambda the public API creates for the raisable operations (both operand "
+        "orders, array/scalar operands, broadcasting, comparisons, logical ops, where, math "
+        "functions, reductions over every axis subset, full, broadcast_to, astype, zeros_like) "
+        "and ~5 systematically derived near-misses per instance are passed to the real "
+        "index_lambda_to_high_level_op; each returned HighLevelOp becomes a NumPy-level node of "
+        "the specification over the same exported operands and TLC decides HLOSem(hlo) = "
+        "EvalIL(il) (soundness, for all inputs up to uninterpreted functions); API-produced "
+        "lambdas must be recognised (completeness); anything else must be "
+        "UnknownIndexLambdaExpr, never another exception.",
+        "Trusted: TLC, exporter. Type casts are stripped on both sides (raising drops them by "
+        "design). Near-misses are derived by a fixed rule set, not exhaustive over all "
+        "expressions.",
+        "TLA+ denotational spec (PtSem: Ev vs NumPy-level kinds) evaluated by TLC on real "
+        "classifications (artefact validation) over an enumerated API family plus mutated "
+        "near-misses",
+        "DESIGN.md section 4 C19"),
 }
 
 NOT_APPLICABLE: dict[str, str] = {}
